@@ -14,7 +14,7 @@ from .dsl import QUERY_KINDS
 CACHES = ['cache.gz', 'cache.gz', 'cache.gz', 'cache.gz', 'cd/cache.gz', 'cd/e/cache.gz', 'c/cache.gz', 'b/cache.gz']
 
 
-def make_universe(names=('a', 'b'), depth=3, extra=('c', 'c/a')):
+def make_universe(names=('a', 'b'), depth=3, extra=('c', 'c/a', 'ab', 'ab/a', 'ab/b', 'a/ba')):
     out = []
 
     def rec(pre, d):
@@ -369,12 +369,59 @@ def nested_failure_program(draw, cfg=DEFAULT_CFG, cache_rel='cache.gz'):
         root.append(draw(st.one_of(query, st.just(['probe']))))
     if cfg.get('probe_w', 0) and not any(s[0] == 'probe' for s in root) and draw(st.booleans()):
         root.append(['probe'])
-    return {'root': root, 'funcs': funcs, 'universe': list(univ)}
+    prog = {'root': root, 'funcs': funcs, 'universe': list(univ)}
+    # a sibling output below the same top-level directory as the failing nested target: whether that directory survives
+    # the caught failure depends on whether the sibling was built before (root variant: the sibling call moves behind p)
+    top = outs[1].split('/')[0]
+    used = [outs[0], outs[1], outs[2]]
+    sibs = [u for u in univ if u.startswith(top + '/') and u not in masked and u != cache_rel and
+            all(not (u == o or u.startswith(o + '/') or o.startswith(u + '/')) for o in used)]
+    if f_kind == 'file' and '/' in outs[1] and top not in masked and sibs and draw(st.booleans()):
+        sib = draw(st.sampled_from(sibs))
+        funcs['s'] = {'kind': 'file', 'body': [['write']]}
+        s_call = ['bf', sib, 's', [], draw(cmp_), True]
+        k = p_body.index(f_call) + 1
+        for kind in draw(st.lists(st.sampled_from(['exists', 'is_dir', 'list_dir', 'walk']), min_size=1, max_size=2)):
+            p_body.insert(k, ['q', kind, top, 'METADATA'])
+        prog['root'] = [s_call] + root
+        prog['alt_roots'] = [root + [s_call]]
+        if draw(st.booleans()):
+            prog['alt_roots'].append(list(root))
+    return prog
+
+
+@st.composite
+def inprogress_ancestor_program(draw, cfg=DEFAULT_CFG, cache_rel='cache.gz'):
+    """OUTSIDE the domain of the reference model (latitude L6): while build_file(P) is running - after it wrote P - its
+    function requests build_file(P/child) (caught).  Only model-independent oracles may be applied to builds of such a
+    program (C03: foreign files survive; the drive only runs builds that are rolled back)."""
+    univ = cfg['universe']
+    masked = set(cache_ancestors(cache_rel))
+    parents = [u for u in univ if u not in masked and u != cache_rel and any(v.startswith(u + '/') for v in univ)]
+    P = draw(st.sampled_from(parents))
+    child = draw(st.sampled_from([v for v in univ if v.startswith(P + '/')]))
+    body = [['write'], ['bf', child, 'ipa1', [], draw(st.sampled_from(cfg['cmp'])), True]]
+    if draw(st.booleans()):
+        body.append(['raise'])
+    funcs = {'ipa0': {'kind': 'file', 'body': body}, 'ipa1': {'kind': 'file', 'body': [['write']]},
+             'ipa2': {'kind': 'file', 'body': [['write']]}}
+    root = [['bf', P, 'ipa0', [], draw(st.sampled_from(cfg['cmp'])), True]]
+    others = [u for u in univ if u not in masked and u != cache_rel and not u.startswith(P + '/') and not P.startswith(u + '/') and u != P]
+    if others and draw(st.booleans()):
+        root.insert(draw(st.integers(0, 1)), ['bf', draw(st.sampled_from(others)), 'ipa2', [], 'METADATA', True])
+    return {'root': root, 'funcs': funcs, 'universe': list(univ), 'alt_roots': [[s for s in root if s[2] == 'ipa2']]}
 
 
 def mixed_program(cfg, cache_rel, patterns=1, general=4, ancestor=True):
     """General programs with a share of the directed pattern families.  ``ancestor=False`` keeps the output paths of a
     program prefix-free (latitude L6): to build a *file* at a path that a recorded build turned into a directory the
     library moves the recorded outputs below it away and rebuilds them, which the C05 rule has no clause for."""
-    return st.one_of(*([program(cfg, cache_rel)] * general + [nested_failure_program(cfg, cache_rel)] * patterns +
-                       ([ancestor_pattern_program(cfg, cache_rel)] * patterns if ancestor else [])))
+    return weighted([(general, program(cfg, cache_rel)), (patterns, nested_failure_program(cfg, cache_rel))] +
+                    ([(patterns, ancestor_pattern_program(cfg, cache_rel))] if ancestor else []))
+
+
+def weighted(pairs):
+    """Choice among strategies with integer weights (st.one_of de-duplicates repeated strategy objects, so repeating a
+    strategy in its argument list does not weight it)."""
+    idx = [i for i, (w, _s) in enumerate(pairs) for _ in range(w)]
+    return st.sampled_from(idx).flatmap(lambda i: pairs[i][1])
